@@ -38,7 +38,7 @@ func (c *c04) NumCases(tier string) int {
 	return 360
 }
 func (c *c04) Rule() string {
-	return "one case = one PRNG history of TransactionSet calls (1-3 intents of 3 owners with distinct priorities; create / replace / tweak / delete) over a pool that exercises every constraint class (range on signed and unsigned leaves carried as strings and as typed values, length, single and double pattern, min-/max-elements, mandatory below a presence container and in list entries, leafref absolute / relative / in a leaf-list / in a list with require-instance true and false, must across sibling leaves) with values that are valid or invalid by themselves and values whose validity depends on other owners' leaves; per case a drawn subset of validator switches is disabled (every third case: none). For every transaction the verdict (accepted, or refused at conversion / by Set / by intent errors) is compared (a) with the reference validator applied to the winner-per-path merge the transaction would produce and (b) with the verdict a fresh empty datastore gives the same merge as one intent. Accepted transactions are confirmed and the history goes on from the new state, refused ones leave the state. distinct = request sequence + switches; non-trivial = the history saw both verdicts and at least one transaction whose validity was decided by a leaf of an owner that was not part of it or by the removal of a shadowing value"
+	return "one case = one PRNG history of TransactionSet calls (1-3 intents of 3 owners with distinct priorities; create / replace / tweak / delete) over a pool that exercises every constraint class (range on signed and unsigned leaves carried as strings and as typed values, length, single and double pattern, min-/max-elements, mandatory below a presence container and in list entries, leafref absolute / relative / in a leaf-list / in a list with require-instance true and false, must across sibling leaves) with values that are valid or invalid by themselves and values whose validity depends on other owners' leaves; per case a drawn subset of validator switches is disabled (every third case: none). For every transaction the verdict (accepted, or refused at conversion / by Set / by intent errors) is compared (a) with the reference validator applied to the winner-per-path merge the transaction would produce and (b) with the verdict a fresh empty datastore gives the same merge as one intent. Accepted transactions are confirmed and the history goes on from the new state, refused ones leave the state. Every fourth case is a partition case instead: 8 (thorough 14) drawn configurations, each split into 2-4 intents with drawn distinct priorities, intents of lower precedence additionally carrying shadowed valid or invalid values for leaves another intent rules, all submitted in one transaction (intents in drawn order) to an empty datastore and judged by the same two oracles. distinct = request sequence + switches; non-trivial = the history saw both verdicts and at least one transaction whose validity was decided by a leaf of an owner that was not part of it or by the removal of a shadowing value"
 }
 func (c *c04) Assumptions() []string {
 	return []string{
@@ -318,6 +318,10 @@ func (c *c04) RunCase(w *core.Worker, idx int, seed uint64, res *core.CaseResult
 	}
 	val := c04Validation(disabled)
 	c.h.validation = val
+	if idx%4 == 3 {
+		c.partitionCase(w, idx, rng, res, disabled, dl, val)
+		return
+	}
 	run := c.h.start(rng, res, false, false)
 	defer run.close()
 	res.Tracef("disabled validators: %v", dl)
@@ -437,4 +441,176 @@ func c04Key(key, diverged string) string {
 		return diverged
 	}
 	return key
+}
+
+// c04Repair adds what the context dependent leaves of cfg need (used to get valid configurations often enough).
+func c04Repair(cfg map[string]string) {
+	for i := 0; i < 3; i++ {
+		vs := model.Validate(withKeyLeaves(cfg), nil)
+		if len(vs) == 0 {
+			return
+		}
+		for _, v := range vs {
+			switch v.Class {
+			case "mandatory":
+				cfg[v.Path] = "r"
+			case "must":
+				if v.Path == "/cons/mst/b" {
+					cfg["/cons/mst/a"] = "on"
+				} else {
+					cfg["/cons/mst/e"] = "true"
+				}
+			case "leafref":
+				switch v.Path {
+				case "/cons/lref-rel":
+					cfg["/sys/name"] = cfg[v.Path]
+				case "/cons/lrefs":
+					for _, e := range llElemsOf(cfg[v.Path]) {
+						cfg["/if[name="+e+"]/descr"] = "a"
+					}
+				default:
+					cfg["/if[name="+cfg[v.Path]+"]/descr"] = "a"
+				}
+			}
+		}
+	}
+}
+
+func withKeyLeaves(cfg map[string]string) map[string]string {
+	in := &model.Intent{Prio: 1, Vals: cfg}
+	return in.Expanded()
+}
+
+// partitionCase: the second sentence of the property taken literally. A drawn configuration is split into 2-4 intents with
+// drawn pairwise distinct priorities, lower-precedence intents additionally carry shadowed values (valid or invalid) for
+// leaves another intent rules; all intents go to an EMPTY datastore in ONE transaction (dry-run). The verdict must be the
+// validity of the merge, and equal to the verdict for the merge submitted as one intent.
+func (c *c04) partitionCase(w *core.Worker, idx int, rng *core.Rng, res *core.CaseResult, disabled map[string]bool, dl []string, val *config.Validation) {
+	reps := 8
+	if w.Tier == "thorough" {
+		reps = 14
+	}
+	var canon []string
+	sawAccept, sawRefuse, sawShadowedBad := false, false, false
+	res.Tracef("partition mode; disabled validators: %v", dl)
+	for rep := 0; rep < reps && len(res.Findings) == 0; rep++ {
+		G := map[string]string{}
+		c04DrawContent(rng, G, 4+rng.Intn(9))
+		if rng.Chance(2, 3) {
+			c04Repair(G)
+		}
+		k := 2 + rng.Intn(3)
+		owners := []string{"pa", "pb", "pc", "pd"}[:k]
+		prios := []int32{}
+		taken := map[int32]bool{}
+		for len(prios) < k {
+			p := int32(5 + rng.Intn(90))
+			if !taken[p] {
+				taken[p] = true
+				prios = append(prios, p)
+			}
+		}
+		sort.Slice(prios, func(i, j int) bool { return prios[i] < prios[j] }) // intent 0 has the best precedence
+		vals := make([]map[string]string, k)
+		for i := range vals {
+			vals[i] = map[string]string{}
+		}
+		shadowBad := false
+		for _, p := range sortedKeys(G) {
+			j := rng.Intn(k)
+			vals[j][p] = G[p]
+			// shadowed definitions in intents of lower precedence
+			for j2 := j + 1; j2 < k; j2++ {
+				if !rng.Chance(1, 3) {
+					continue
+				}
+				for _, l := range consPool {
+					if l.path != p {
+						continue
+					}
+					isRange := p == "/sys/mtu" || p == "/cons/rng-s" || p == "/cons/rng-u" || strings.HasSuffix(p, "/vlan")
+					if len(l.bad) > 0 && !isRange && rng.Chance(1, 2) {
+						vals[j2][p] = l.bad[rng.Intn(len(l.bad))]
+						shadowBad = true
+					} else {
+						vals[j2][p] = l.good[rng.Intn(len(l.good))]
+					}
+				}
+			}
+		}
+		var step []stepIntent
+		for i := 0; i < k; i++ {
+			if len(vals[i]) == 0 {
+				continue
+			}
+			step = append(step, stepIntent{Owner: owners[i], Prio: prios[i], Vals: vals[i], Kind: "part"})
+		}
+		if len(step) == 0 {
+			continue
+		}
+		// the server must not depend on the order of the intents in the request either
+		perm := rng.Perm(len(step))
+		sh := make([]stepIntent, len(step))
+		for i, pi := range perm {
+			sh[i] = step[pi]
+		}
+		step = sh
+		after := applyToModel(model.NewIntents(), step)
+		R := winnersFlat(after)
+		exp := model.Validate(R, disabled)
+		dontCare := false
+		if disabled["Range"] {
+			for _, v := range model.Validate(R, nil) {
+				if v.Class == "range" {
+					dontCare = true
+				}
+			}
+		}
+		run := c.h.start(rng, res, false, false)
+		out := run.set("p", step, nil, time.Minute, true)
+		v := c04VerdictOf(out)
+		run.close()
+		canon = append(canon, stepString(step))
+		res.Tracef("partition %d: %s", rep, stepString(step))
+		if v.broken {
+			if !out.panicked {
+				res.Inconclusive("C04/no-verdict", "partition [%s]: %s", stepString(step), v.why)
+			}
+			return
+		}
+		res.Count("transactions", 1)
+		res.Count("partitions", 1)
+		where := fmt.Sprintf("partition [%s] on an empty datastore, disabled=%v\n  resulting configuration: %s", stepString(step), dl, model.SortedMap(withoutKeyLeaves(R)))
+		if v.accepted {
+			sawAccept = true
+			res.Count("accepted", 1)
+			if shadowBad {
+				sawShadowedBad = true
+				res.Count("accepted_with_invalid_shadowed_values", 1)
+			}
+		} else {
+			sawRefuse = true
+			res.Count("refused", 1)
+			res.Count("refused:"+c04Class(v.why), 1)
+		}
+		if !dontCare {
+			switch {
+			case v.accepted && len(exp) > 0:
+				res.Violate("C04/invalid-result-accepted/"+exp[0].Class, "%s\n  accepted although the result violates %v", where, exp)
+			case !v.accepted && len(exp) == 0:
+				res.Violate("C04/valid-result-refused/"+c04Class(v.why), "%s\n  refused although the result satisfies every enforced constraint: %s", where, v.why)
+			}
+		}
+		sv := c.solo(res, R, val)
+		if sv.broken {
+			res.Inconclusive("C04/no-solo-verdict", "%s: %s", where, sv.why)
+			return
+		}
+		res.Count("solo_comparisons", 1)
+		if sv.accepted != v.accepted {
+			res.Violate("C04/verdict-depends-on-split/"+c04Class(v.why+sv.why), "%s\n  as %d intents: accepted=%v %s\n  as one intent: accepted=%v %s", where, len(step), v.accepted, v.why, sv.accepted, sv.why)
+		}
+	}
+	res.Hash = core.HashOf(append([]string{"partition", fmt.Sprint(dl)}, canon...)...)
+	res.NonTrivial = sawAccept && sawRefuse && sawShadowedBad
 }
